@@ -3547,12 +3547,17 @@ static Token *global_variable(Token *tok, Type *basety, VarAttr *attr) {
     if (!ty->name)
       error_tok(ty->name_pos, "variable name omitted");
 
+    // An alignment given in an earlier declaration of the object stays.
+    VarScope *prev = find_var(ty->name);
+
     Obj *var = new_gvar(get_ident(ty->name), ty);
     var->is_definition = !attr->is_extern;
     var->is_static = attr->is_static;
     var->is_tls = attr->is_tls;
     if (attr->align)
       var->align = attr->align;
+    else if (prev && prev->var && !prev->var->is_function)
+      var->align = MAX(var->align, prev->var->align);
 
     if (equal(tok, "="))
       gvar_initializer(&tok, tok->next, var);
